@@ -28,7 +28,7 @@ def import_stl(path : str):
 def _import_stl_ascii(path : str):
     data = deque()
     with open(path, "r", encoding="utf-8") as stlf:
-        data = deque([x.strip().split() for x in stlf.readlines()])
+        data = deque([x.split() for x in stlf.readlines() if x.strip()]) # ignore blank lines
     
     out = RawMeshData()
     normals = out.faces.create_attribute("normals", float, 3)
